@@ -1362,7 +1362,8 @@ contract(F, 'Table.__init__', tier='A', props=['C17', 'C05'],
     types={'self': 'Obj:Table', 'data': 'SP', 'observation_ids': 'Arr[Str]', 'sample_ids': 'Arr[Str]',
            'observation_metadata': 'Opt[Tup[Val]]', 'sample_metadata': 'Opt[Tup[Val]]', 'table_id': 'Val', 'type': 'Val',
            'create_date': 'Val', 'generated_by': 'Val', 'observation_group_metadata': 'Val', 'sample_group_metadata': 'Val',
-           # no caller in the package hands lookups in: verified for the default (None)
+           # verified for the default lookups (None); the one caller that hands lookups in (partition, via **indices) is
+           # not under contract
            'validate': 'Bool', 'observation_index': 'None', 'sample_index': 'None',
            'kwargs': 'Dict[Str,Val]'},
     requires=[],
